@@ -98,6 +98,13 @@ class KGFnWrapper:
                 return sym
         return None
 
+    def _convert_args(self, args):
+        # Python lists become Klong lists: kg_asarray keeps ragged lists and lists mixing numbers
+        # with strings as lists of their elements (np.asarray raised on the former and turned the
+        # numbers of the latter into strings)
+        backend = self.klong._backend
+        return [backend.kg_asarray(x) if isinstance(x, list) else x for x in args]
+
     def __call__(self, *args, **kwargs):
         # Try to resolve dynamically first if we have a symbol
         if self._sym is not None:
@@ -110,12 +117,12 @@ class KGFnWrapper:
                 # Use the current definition (a KeyError raised by its own code is its failure, not a deleted symbol)
                 if len(args) != current.arity:
                     raise RuntimeError(f"Klong function called with {len(args)} but expected {current.arity}")
-                fn_args = [np.asarray(x) if isinstance(x, list) else x for x in args]
+                fn_args = self._convert_args(args)
                 return self.klong.call(KGCall(current.a, [*fn_args], current.arity))
 
         if len(args) != self.fn.arity:
             raise RuntimeError(f"Klong function called with {len(args)} but expected {self.fn.arity}")
-        fn_args = [np.asarray(x) if isinstance(x, list) else x for x in args]
+        fn_args = self._convert_args(args)
         return self.klong.call(KGCall(self.fn.a, [*fn_args], self.fn.arity))
 
 
@@ -518,6 +525,9 @@ def get_fn_arity(f):
             if isinstance(f.args, list):
                 for q in f.args:
                     x.update(_e(q, level=1))
+            elif f.args is not None:
+                # the single operand of a monad is not wrapped in a list
+                x.update(_e(f.args, level=1))
         elif isinstance(f, list):
             x = set()
             for q in f:
